@@ -140,6 +140,9 @@ def fault_case(case, part):
             content = stream.read()
         with open(path, "wb") as stream:
             stream.write(content[: case["at"]])
+    if kind == "truncate" and readermachine.archive_still_readable(path):
+        part.note("truncations that left the archive fully readable (not judged)")
+        return
     outcome, detail = read_real(path, sheet)
     part.transitions += 1
     part.validated += 1
